@@ -39,10 +39,19 @@ QUERIES = [None, [(["id"], ["1"])], [(["b"], ["2"]), (["a"], ["1"])], [(["a"], [
            [(["t"], None), (["t"], []), (["t"], ["1"])]]  # same key without value, with an empty one and with a value: the order must still be total
 FRAGS = [None, ["top"], ["/route"], ["!/r"]]
 
-MARKERS = ["www.", "www2.", "m.", "mobile.", "amp.", "amp-", "WWW."]
-TRACKING = [("utm_source", "x"), ("utm_medium", ""), ("utm_campaign", None), ("fbclid", "IwAR0"), ("gclid", "abc"), ("igshid", "1x"), ("mc_cid", "9"), ("sessionid", "1f"),
-            ("jsessionid", "AB"), ("phpsessionid", "q"), ("_ga", "2.1"), ("amp", None), ("amp_js_v", "0.1"), ("usqp", "mq331AQ"), ("ref", "twitter"), ("platform", "hootsuite"),
-            ("output", "amp"), ("s", "09"), ("m", "1"), ("UTM_Source", "X"), ("xtor", "RSS-1"), ("__twitter_impression", "true"), ("mode", "amp"), ("outputType", "amp")]
+MARKERS = ["www.", "www2.", "www9.", "m.", "mobile.", "amp.", "amp-", "WWW.", "Mobile."]
+# every alternative of ural's documented irrelevant-item tables, one witness each (a key dropped from a table would otherwise be invisible)
+TRACKING = [("utm_source", "x"), ("utm_medium", ""), ("utm_campaign", None), ("utm_x", "1"), ("mtm_campaign", "a"), ("at_medium", "b"), ("fbclid", "IwAR0"), ("gclid", "abc"), ("dclid", "d"),
+            ("twclid", "t"), ("igshid", "1x"), ("mibextid", "Zx"), ("mc_cid", "9"), ("mc_eid", "8"), ("mkt_tok", "m"), ("sessionid", "1f"), ("jsessionid", "AB"), ("phpsessionid", "q"),
+            ("aspsessionid", "r"), ("sid", "77"), ("cfid", "1"), ("cftoken", "2"), ("_ga", "2.1"), ("_ft_", "q"), ("__tn__", "R"), ("fref", "nf"), ("refid", "52"), ("ncid", "n"),
+            ("fb_action_ids", "1"), ("fb_action_types", "og.likes"), ("fb_source", "feed"), ("echobox", "35272"), ("feature", "youtu.be"), ("recruiter", "797"), ("_unique_id", "u"),
+            ("campaignid", "c"), ("adgroupid", "a"), ("cn-reloaded", "1"), ("ao_noptimize", "1"), ("__twitter_impression", "true"), ("_guc_consent_skip", "1"), ("guccounter", "1"),
+            ("een", "34"), ("seen", "3458474"), ("xtor", "RSS-1"), ("xtloc", "4"), ("xtref", "1"), ("xtcr", "2"), ("xtnp", "3"), ("xts", "3"), ("wpamp", None), ("usqp", "mq331AQ"),
+            ("amp", None), ("amp_js_v", "0.1"), ("outputType", "amp"), ("marfeeltn", "amp"), ("mode", "amp"), ("output", "amp"), ("platform", "hootsuite"), ("fromref", "twitter"),
+            ("m", "1"), ("m", "0"), ("s", "09"), ("s", "2"), ("source", "twitter"), ("sns", "tw"), ("_ss", "r"), ("UTM_Source", "X"),
+            ("ref", "twitter"), ("ref", "bookmark"), ("ref", "bookmarks"), ("ref", "distributor_share"), ("ref", "fb"), ("ref", "fb_i"), ("ref", "m_notif"), ("ref", "nf"), ("ref", "notif"),
+            ("ref", "shortener"), ("ref", "ts"), ("ref", "tw"), ("ref", "tw_i"), ("ref", "twhr"), ("ref", "twhs"), ("ref", "viral"), ("ref", "feed"), ("ref", "twtrec"),
+            ("spref", "fb"), ("spref", "ts"), ("spref", "tw"), ("spref", "tw_i"), ("spref", "twitter")]
 INDEXES = ["index.html", "index.php", "index", "default.aspx", "default.htm", "index.xhtml"]
 
 
@@ -259,12 +268,21 @@ def platform_variants(u, rng):
            ("default-port", "%s://%s:%s%s" % (sp.scheme, host, "80" if sp.scheme == "http" else "443", rest)), ("host-case", "%s://%s%s" % (sp.scheme, host.upper(), rest)),
            ("subdomain", "%s://www.%s%s" % (sp.scheme, bare, rest)), ("subdomain", "%s://m.%s%s" % (sp.scheme, bare, rest)), ("wrap", " \t" + u + "\n"), ("controls", u[:9] + "\x00" + u[9:]),
            ("tracking", u + ("&" if "?" in u else "?") + "utm_source=x&fbclid=1"), ("fragment", u + "#top")]
+    sep = "&" if "?" in u else "?"
+    if host.lower().endswith("facebook.com"):
+        out += [("tracking", u + sep + "_rdr=1"), ("tracking", u + sep + "_rdc=2&_rdr")]
+    if host.lower().endswith("youtube.com"):  # the per-domain items are documented for youtube.com hosts only (not youtu.be)
+        out += [("tracking", u + sep + "si=abc"), ("tracking", u + sep + "ab_channel=x&cbrd=1&ucbcb=1")]
     return out
+
+
+BASE_NO = [0]
 
 
 def singles(ctx, base, rng):
     """Every single transformation; tracking at every position, all permutations (<= 4 items)."""
     out = []
+    BASE_NO[0] += 1
     for name, t in CASE_T.items():
         if name in ("tracking", "permute"):
             continue
@@ -273,8 +291,8 @@ def singles(ctx, base, rng):
             out.append((name.split(":")[0], render(v)))
     q = base.get("query") or []
     for it_i, item in enumerate(TRACKING):
-        if (it_i + len(q)) % 3 and len(q) > 1:
-            continue  # each base takes a third of the list at every position (all items covered across bases)
+        if (it_i + BASE_NO[0]) % 6:
+            continue  # each base takes a sixth of the list at every position (all items covered across bases)
         for pos in range(len(q) + 1):
             out.append(("tracking:" + item[0].lower().split("_")[0], render(t_tracking(base, rng, pos, item))))
             ctx.count("tracking-every-position")
